@@ -10,7 +10,11 @@ Two kinds of evaluation, both on outputs of the REAL esutil.coords of the build 
       point back, separations are kept, the J2000 rows agree with the documented constants,
       chained conversions agree with the direct one -- tolerances of the statement, on the sky.
 """
+import json
 import math
+import os
+import subprocess
+import sys
 import time
 import warnings
 
@@ -109,6 +113,76 @@ def euler_points(r, sel, b1950, n_uniform):
 
 
 # ----------------------------------------------------------------------------------------------
+# container forms handed to the implementation (every form denotes exactly the listed binary64 values)
+# ----------------------------------------------------------------------------------------------
+
+ARRAY_FORMS = ("f8", "list", "tuple", "len1", "0d", "u1", "i2", "u2", "i4", "i8", "f4", ">f8", "strided", "reversed", "readonly", "long")
+INT_FORMS = ("u1", "i2", "u2", "i4", "i8")
+UNSIGNED = ("u1", "u2")
+
+
+def as_form(vals, form):
+    """list of python floats -> the object handed to the implementation"""
+    import numpy as np
+    vals = [float(v) for v in vals]
+    if form in (None, "f8", "len1", "long"):
+        x = np.array(vals, dtype="f8")
+    elif form == "list":
+        return list(vals)
+    elif form == "tuple":
+        return tuple(vals)
+    elif form == "0d":
+        x = np.array(vals[0], dtype="f8")
+    elif form in INT_FORMS or form in ("f4", ">f8"):
+        x = np.array(vals, dtype=form)
+    elif form == "strided":
+        big = np.full(2 * len(vals) + 1, 12.25, dtype="f8")
+        big[::2][:len(vals)] = vals
+        x = big[::2][:len(vals)]
+    elif form == "reversed":
+        x = np.array(vals[::-1], dtype="f8")[::-1]
+    elif form == "readonly":
+        x = np.array(vals, dtype="f8")
+        x.flags.writeable = False
+    else:
+        raise AssertionError("unknown form %r" % form)
+    if not np.array_equal(np.asarray(x, dtype="f8").ravel(), np.array(vals if form != "0d" else vals[:1], dtype="f8")):
+        raise AssertionError("harness: values are not representable in form %r" % form)
+    return x
+
+
+def snapshot(x):
+    import numpy as np
+    return np.array(x, copy=True) if isinstance(x, np.ndarray) else (list(x) if isinstance(x, (list, tuple)) else x)
+
+
+def unchanged(x, snap):
+    import numpy as np
+    if isinstance(x, np.ndarray):
+        return x.dtype == snap.dtype and np.array_equal(x, snap)
+    return (list(x) if isinstance(x, (list, tuple)) else x) == snap
+
+
+def pts_for_form(r, form, n, lo2=-90.0, hi2=90.0, lo1=0.0, hi1=360.0):
+    """n points (first coordinate in [lo1,hi1], second in [lo2,hi2]) whose values are representable in the form"""
+    import numpy as np
+    out = []
+    for _ in range(n):
+        if form in INT_FORMS:
+            top = 255 if form == "u1" else 10 ** 6
+            a = float(r.randrange(int(math.ceil(max(lo1, 0.0) if form in UNSIGNED else lo1)), min(int(hi1), top) + 1))
+            d = float(r.randrange(int(math.ceil(max(lo2, 0.0) if form in UNSIGNED else lo2)), min(int(hi2), top) + 1))
+        elif form == "f4":
+            a = float(np.float32(r.uniform(lo1, hi1)))
+            d = float(np.float32(r.uniform(lo2, hi2)))
+            a, d = min(max(a, lo1), hi1), min(max(d, lo2), hi2)
+        else:
+            a, d = r.uniform(lo1, hi1), r.uniform(lo2, hi2)
+        out.append((a, d))
+    return out
+
+
+# ----------------------------------------------------------------------------------------------
 # (Q) entries
 # ----------------------------------------------------------------------------------------------
 
@@ -127,10 +201,40 @@ class Shift(Entry):
         r = ctx.rng
         cs = []
 
-        def add(lons, shift, wrap, fam, fn=None, form=None):
-            cs.append({"fn": fn or r.choice(["shiftlon", "shiftra"]), "lons": lons, "shift": shift, "wrap": wrap,
-                       "form": form or ("scalar" if len(lons) == 1 and r.random() < 0.5 else "array"), "family": fam})
+        def add(lons, shift, wrap, fam, fn=None, form=None, **kw):
+            cs.append(dict({"fn": fn or r.choice(["shiftlon", "shiftra"]), "lons": lons, "shift": shift, "wrap": wrap,
+                            "form": form or ("scalar" if len(lons) == 1 and r.random() < 0.5 else "array"), "family": fam}, **kw))
         if round == 0:
+            # shift = 0 in every spelling is a shift: the result stays in [0,360) and is not wrapped to [-180,180]
+            for sh in (0, 0.0, -0.0):
+                for wrap in (True, False):
+                    add([181.0], sh, wrap, "zero-shift", form="scalar")
+                    add([0.0, 10.0, 179.0, 180.0, 181.0, 270.0, 359.5], sh, wrap, "zero-shift", form="array")
+            add([200.0, 359.0], 0.0, True, "zero-shift", form="array", shift_type="np.float64")
+            add([200.0, 359.0], 0, True, "zero-shift", form="array", shift_type="np.int64")
+            add([200.0, 359.0], 0.0, True, "zero-shift", form="array", shift_type="0d")
+            add([], 10.0, True, "forms", form="array")
+            add([], None, True, "forms", form="array")
+            # container forms and dtypes of the longitudes, types of the shift, keywords omitted / given as their defaults
+            for form in ("list", "tuple", "0d", "u1", "i2", "i4", "i8", "u2", "f4", ">f8", "strided", "reversed", "readonly", "int-scalar", "np-scalar"):
+                for sh in (r.choice([-10, 10, 350, -350, 725]), None):
+                    if form in INT_FORMS or form == "int-scalar":
+                        lons = [float(r.randrange(0, 256 if form == "u1" else 360)) for _ in range(4)] + [250.0, 10.0, 0.0]
+                        if sh is not None and form == "u1":
+                            sh = r.choice([-10, 10, 250, -110])
+                    elif form == "f4":
+                        lons = [float(__import__("numpy").float32(r.uniform(0, 359))) for _ in range(4)] + [350.0, 10.0]
+                    else:
+                        lons = [r.uniform(0, 359.9) for _ in range(4)] + [350.0, 10.0, 190.0]
+                    if form in ("0d", "int-scalar", "np-scalar"):
+                        lons = [r.choice(lons)]
+                    add(lons, sh, r.random() < 0.7, "forms", form=form, shift_type=r.choice(["py", "np.float64", "np.int64", "0d"]),
+                        kw=r.choice(["omit", "explicit"]))
+            # long arrays (beyond any plausible block size): a few distinct longitudes tiled
+            for n in ([4097] if ctx.quick() else [4097, 65537, 100001]):
+                add([r.randrange(0, 360 * 64) / 64.0 for _ in range(9)] + [350.0, 10.0, 190.0], r.choice([-10.0, 10.0, 350.0]), True,
+                    "long-array", form="long", n=n)
+                add([r.randrange(0, 360 * 64) / 64.0 for _ in range(9)] + [350.0, 10.0, 190.0], None, True, "long-array", form="long", n=n)
             # boundaries: results landing exactly on 0 / 360 / 180, shifts that are multiples of 360
             for lon, sh in [(350.0, -10.0), (350, -10), (10.0, 10.0), (0.0, 360.0), (0.0, -360.0), (0.0, 0.0), (359.5, -0.5),
                             (180.0, 180.0), (180.0, -180.0), (0.0, -720.0), (1.0, 721.0), (270.0, -90.0), (90.0, -270.0),
@@ -174,14 +278,52 @@ class Shift(Entry):
         fn = getattr(co, c["fn"])
 
         def f():
-            arg = c["lons"][0] if c["form"] == "scalar" else np.array(c["lons"], dtype="f8")
-            keep = np.array(arg, copy=True)
-            out = fn(arg, shift=c["shift"], wrap=c["wrap"])
+            form = c["form"]
+            lons = c["lons"]
+            order = None
+            if form == "scalar":
+                arg = lons[0]
+            elif form == "int-scalar":
+                arg = int(lons[0])
+            elif form == "np-scalar":
+                arg = np.float64(lons[0])
+            elif form == "array":
+                arg = np.array(lons, dtype="f8")
+            elif form == "long":
+                rr = __import__("random").Random(len(lons) * 7919 + c["n"])
+                order = [rr.randrange(len(lons)) for _ in range(c["n"])]
+                order[:len(lons)] = range(len(lons))
+                arg = np.array([lons[i] for i in order], dtype="f8")
+            else:
+                arg = as_form(lons, form)
+            sh = c["shift"]
+            st = c.get("shift_type", "py")
+            if sh is not None and st != "py":
+                sh = {"np.float64": np.float64, "np.int64": lambda v: np.int64(int(v)), "0d": lambda v: np.array(float(v))}[st](sh)
+            kw = {}
+            if sh is not None or c.get("kw") == "explicit":
+                kw["shift"] = sh
+            if not (c.get("kw") == "omit" and c["wrap"] is True):
+                kw["wrap"] = c["wrap"]
+            keep = snapshot(arg)
+            out = fn(arg, **kw)
             out = [jf(x) for x in np.asarray(out, dtype="f8").ravel()]
-            if not np.array_equal(np.asarray(arg), keep):
-                raise AssertionError("input array modified")
-            if len(out) != len(c["lons"]):
-                raise AssertionError("output length %d for %d inputs" % (len(out), len(c["lons"])))
+            if not unchanged(arg, keep):
+                raise AssertionError("input modified")
+            if order is not None:
+                # every occurrence of a longitude must give the same number: report the distinct outputs per longitude
+                if len(out) != len(order):
+                    raise AssertionError("output length %d for %d inputs" % (len(out), len(order)))
+                seen = {}
+                for i, o in zip(order, out):
+                    seen.setdefault(i, [])
+                    if not any(o == q or (o is None and q is None) for q in seen[i]):
+                        seen[i].append(o)
+                if any(len(v) != 1 for v in seen.values()):
+                    raise AssertionError("equal inputs at different positions of a long array give different outputs")
+                return [seen[i][0] for i in range(len(lons))]
+            if len(out) != len(lons):
+                raise AssertionError("output length %d for %d inputs" % (len(out), len(lons)))
             return out
         return core.guarded(f)
 
@@ -213,22 +355,58 @@ def call_conv(c, pts, scalar):
     co = _coords()
     fn = c["fn"]
 
-    def one(a, d):
+    kwm = c.get("kw")           # None: as the harness always did; "omit": defaults left out; "explicit": every keyword given
+
+    def ekw():
+        k = {}
+        if not (kwm == "omit" and not c["b1950"]):
+            k["b1950"] = c["b1950"]
+        if kwm == "explicit" or c.get("dtype"):
+            k["dtype"] = c.get("dtype") or "f8"
+            if k["dtype"] == "np.float64":
+                k["dtype"] = np.float64
+        return k
+
+    def ukw():
+        k = {}
+        if not (kwm == "omit" and c["units"] == "deg"):
+            k["units"] = c["units"]
+        if not (kwm == "omit" and not c["stomp"]):
+            k["stomp"] = c["stomp"]
+        return k
+
+    def one(a, d, form=None):
         if fn == "euler":
-            return quiet(co.euler, a, d, c["sel"], b1950=c["b1950"])
+            return quiet(co.euler, a, d, c["sel"], **ekw())
         if fn in WRAPPER.values():
-            return quiet(getattr(co, fn), a, d, b1950=c["b1950"])
+            return quiet(getattr(co, fn), a, d, **ekw())
         if fn == "eq2sdss":
-            return quiet(co.eq2sdss, a, d)
+            return quiet(co.eq2sdss, a, d, **({"dtype": "f8"} if kwm == "explicit" else {}))
         if fn == "sdss2eq":
-            return quiet(co.sdss2eq, a, d)
+            return quiet(co.sdss2eq, a, d, **({"dtype": "f8"} if kwm == "explicit" else {}))
         if fn == "eq2xyz":
-            return quiet(co.eq2xyz, a, d, units=c["units"], stomp=c["stomp"])
+            return quiet(co.eq2xyz, a, d, **dict(ukw(), **({"dtype": "f8"} if kwm == "explicit" else {})))
         if fn == "xyz2eq":
-            x, y, z = quiet(co.eq2xyz, a, d, units=c["units"], stomp=c["stomp"])
-            return quiet(co.xyz2eq, x, y, z, units=c["units"], stomp=c["stomp"])
+            x, y, z = quiet(co.eq2xyz, a, d, **ukw())
+            if form in ("list", "tuple"):
+                x, y, z = ([float(v) for v in np.ravel(t)] for t in (x, y, z))
+                if form == "tuple":
+                    x, y, z = tuple(x), tuple(y), tuple(z)
+            elif form == "readonly":
+                for t in (x, y, z):
+                    t.flags.writeable = False
+            elif form == "reversed":
+                x, y, z = (np.array(t[::-1])[::-1] for t in (x, y, z))
+            elif form == ">f8":
+                x, y, z = (t.astype(">f8") for t in (x, y, z))
+            return quiet(co.xyz2eq, x, y, z, **ukw())
         if fn == "rotate":
-            return quiet(co.rotate, c["phi"], c["theta"], c["psi"], a, d)
+            ang = [c["phi"], c["theta"], c["psi"]]
+            if c.get("angle_type") == "int":
+                ang = [int(v) for v in ang]
+            elif c.get("angle_type") == "np.float64":
+                ang = [np.float64(v) for v in ang]
+            return quiet(co.rotate, ang[0], ang[1], ang[2], a, d)
         raise AssertionError("unknown fn " + fn)
     if scalar:
         res = []
@@ -236,16 +414,18 @@ def call_conv(c, pts, scalar):
             o = one(float(a), float(d))
             res.append(tuple(float(np.asarray(v, dtype="f8").ravel()[0]) for v in o))
         return res
-    a = np.array([p[0] for p in pts], dtype="f8")
-    d = np.array([p[1] for p in pts], dtype="f8")
-    ka, kd = a.copy(), d.copy()
-    o = one(a, d)
-    if not (np.array_equal(a, ka) and np.array_equal(d, kd)):
+    form = c.get("form")
+    a = as_form([p[0] for p in pts], form)
+    d = as_form([p[1] for p in pts], form)
+    ka, kd = snapshot(a), snapshot(d)
+    o = one(a, d, form)
+    if not (unchanged(a, ka) and unchanged(d, kd)):
         raise AssertionError("input arrays modified")
     cols = [np.asarray(v, dtype="f8").ravel() for v in o]
-    if any(len(col) != len(pts) for col in cols):
+    npt = 1 if form == "0d" else len(pts)
+    if any(len(col) != npt for col in cols):
         raise AssertionError("output length differs from input length")
-    return [tuple(float(col[i]) for col in cols) for i in range(len(pts))]
+    return [tuple(float(col[i]) for col in cols) for i in range(npt)]
 
 
 class Forms(Entry):
@@ -288,13 +468,79 @@ class Forms(Entry):
                     if _fin(_f(a)) and _fin(_f(d)):
                         pts.append(clamp_pt(_f(a), _f(d)))
                 cs.append({"fn": "rotate", "phi": ang[0], "theta": ang[1], "psi": ang[2], "pts": pts, "family": "rotate"})
+        if round == 0:
+            cs += self.form_cases(ctx)
+        return cs
+
+    def form_cases(self, ctx):
+        """input-form audit: every entry point with lists, tuples, 0-d and length-1 arrays, integer / float32 / big-endian
+        dtypes, strided / reversed / read-only views, long arrays, keywords omitted or given explicitly as their defaults"""
+        r = ctx.rng
+        cs = []
+        forms = ["list", "tuple", "len1", "0d", "u1", "i2", "i4", "i8", "u2", "f4", ">f8", "strided", "reversed", "readonly", "long"]
+        fns = [("euler", {}), ("wrapper", {}), ("eq2sdss", {}), ("sdss2eq", {}), ("eq2xyz", {}), ("xyz2eq", {}), ("rotate", {})]
+        k = 0
+        for form in forms:
+            # quick: each form with three of the seven entry points (rotating); thorough: all of them
+            sel_fns = fns if not ctx.quick() else [fns[(k + j) % len(fns)] for j in range(3)]
+            k += 3
+            for fn, _ in sel_fns:
+                c = {"form": form, "family": "form:" + form, "kw": r.choice(["omit", "explicit", None])}
+                if c["kw"] == "explicit" and fn in ("euler", "wrapper"):
+                    c["dtype"] = r.choice(["f8", "float64", "<f8", "np.float64", "d"])     # spellings of binary64
+                lo1, hi1, lo2, hi2 = 0.0, 360.0, -90.0, 90.0
+                if fn in ("euler", "wrapper"):
+                    sel = r.randrange(1, 7)
+                    c.update({"fn": "euler" if fn == "euler" else WRAPPER[sel], "sel": sel, "b1950": r.random() < 0.5})
+                elif fn == "sdss2eq":
+                    c["fn"] = fn
+                    lo1, hi1, lo2, hi2 = -90.0, 90.0, -180.0, 180.0
+                elif fn in ("eq2xyz", "xyz2eq"):
+                    c.update({"fn": fn, "units": "deg" if form in INT_FORMS else r.choice(["deg", "rad"]), "stomp": r.random() < 0.5})
+                    if c["units"] == "rad":
+                        lo1, hi1, lo2, hi2 = 0.0, 6.25, -1.5, 1.5
+                elif fn == "rotate":
+                    c.update({"fn": fn, "angle_type": r.choice(["py", "int", "np.float64"])})
+                    ang = [float(r.randrange(-360, 361)) for _ in range(3)]
+                    c.update({"phi": ang[0], "theta": ang[1], "psi": ang[2]})
+                else:
+                    c["fn"] = fn
+                npt = 1 if form in ("len1", "0d") else (12 if form == "long" else 5)
+                c["pts"] = pts_for_form(r, form, npt, lo2, hi2, lo1, hi1)
+                if form == "long":
+                    c["n"] = 4097 if ctx.quick() else r.choice([65537, 100001])
+                cs.append(c)
+        # empty arrays (no point to convert: nothing may be raised or invented; eq2sdss/sdss2eq are left out -- their
+        # range check takes min() of the array and raises ValueError on an empty one, see the report)
+        cs.append({"fn": "euler", "sel": 1, "b1950": False, "pts": [], "family": "form:empty"})
+        cs.append({"fn": "gal2ec", "sel": 6, "b1950": True, "pts": [], "family": "form:empty"})
+        cs.append({"fn": "eq2xyz", "units": "deg", "stomp": False, "pts": [], "family": "form:empty"})
+        cs.append({"fn": "xyz2eq", "units": "rad", "stomp": True, "pts": [], "family": "form:empty"})
+        cs.append({"fn": "rotate", "phi": 10.0, "theta": 20.0, "psi": 30.0, "pts": [], "family": "form:empty"})
         return cs
 
     def impl(self, c):
         def f():
             pts = [tuple(p) for p in c["pts"]]
-            arr = call_conv(c, pts, False)
-            sca = call_conv(c, pts, True)
+            sca = call_conv(dict(c, form=None), pts, True)
+            if c.get("form") == "long":
+                # a long array made of the case's points in pseudo-random order: every occurrence of a point must give
+                # the same numbers; the distinct outputs per point are what Coq compares with the scalar calls
+                rr = __import__("random").Random(c["n"])
+                order = [rr.randrange(len(pts)) for _ in range(c["n"])]
+                order[:len(pts)] = range(len(pts))
+                big = call_conv(c, [pts[i] for i in order], False)
+                seen = {}
+                for i, o in zip(order, big):
+                    o = tuple(jf(x) for x in o)
+                    seen.setdefault(i, [])
+                    if o not in seen[i]:
+                        seen[i].append(o)
+                if any(len(v) != 1 for v in seen.values()):
+                    raise AssertionError("equal inputs at different positions of a long array give different outputs")
+                arr = [seen[i][0] for i in range(len(pts))]
+            else:
+                arr = call_conv(c, pts, False)
             return {"arr": [[jf(x) for x in t] for t in arr], "sca": [[jf(x) for x in t] for t in sca]}
         return core.guarded(f)
 
@@ -312,7 +558,77 @@ class Forms(Entry):
         return "verdict true (forms_ok %s [%s] [%s])" % (chk, "; ".join(oqpair(t) for t in arr), "; ".join(oqpair(t) for t in sca))
 
     def classify(self, c, out, v):
-        return "C09.ranges:%s" % c["fn"]
+        return "C09.ranges:%s%s" % (c["fn"], (":" + c["form"]) if c.get("form") else "")
+
+
+_FRESH_SCRIPT = ("import sys, json; sys.path.insert(0, %r); from harness.props import C09 as H; ops = json.load(sys.stdin); out = []; prev = None\n"
+                 "for o in ops:\n"
+                 "    pt = prev if o['pt'] == 'prev' else tuple(o['pt'])\n"
+                 "    prev = H.call_conv(o['conv'], [pt], True)[0]\n"
+                 "    out.append([H.jf(x) for x in prev])\n"
+                 "print('@@' + json.dumps(out))\n") % core.VERIF
+_FRESH_CACHE = {}
+
+
+def fresh_process(ops):
+    """run the calls, in order, in ONE newly started python process (same build under test); -> list of outputs"""
+    key = json.dumps(ops, sort_keys=True)
+    if key not in _FRESH_CACHE:
+        r = subprocess.run([sys.executable, "-c", _FRESH_SCRIPT], input=key, stdout=subprocess.PIPE, stderr=subprocess.PIPE,
+                           text=True, timeout=300, env=dict(os.environ))
+        line = [ln for ln in r.stdout.splitlines() if ln.startswith("@@")]
+        if r.returncode != 0 or not line:
+            raise RuntimeError("fresh process failed: %s" % (r.stderr[-300:]))
+        _FRESH_CACHE[key] = json.loads(line[-1][2:])
+    return _FRESH_CACHE[key]
+
+
+class History(Entry):
+    """a conversion is a function of its arguments: what a call returns after other calls in the same process (other epoch,
+    other selector, other dtype, opposite Euler angles) is what it returns as the only call of a newly started process --
+    and is finite and in range"""
+    name = "history"
+
+    def cases(self, ctx, round=0):
+        r = ctx.rng
+        cs = []
+
+        def ecall(sel, b, via_euler=False, dtype=None):
+            c = {"fn": "euler" if via_euler else WRAPPER[sel], "sel": sel, "b1950": b}
+            if dtype:
+                c["dtype"] = dtype
+            return {"conv": c, "pt": list(sphere_pt(r))}
+
+        def rcall(ang):
+            return {"conv": {"fn": "rotate", "phi": ang[0], "theta": ang[1], "psi": ang[2]}, "pt": list(sphere_pt(r))}
+        sels = [1, 3, 5] if ctx.quick() else [1, 2, 3, 4, 5, 6]
+        if round > 0:
+            sels = [r.randrange(1, 7)]
+        for sel in sels:
+            cs.append({"ops": [ecall(sel, True), ecall(sel, False)], "family": "epoch:B1950-then-J2000"})
+            if not ctx.quick() or sel == 1:
+                cs.append({"ops": [ecall(sel, False, True), ecall(sel, True, True), ecall(sel, False)], "family": "epoch:J2000-B1950-J2000"})
+        cs.append({"ops": [ecall(1, True, dtype="f4"), ecall(1, False, dtype="f4"), ecall(1, False)], "family": "dtype:f4-then-f8"})
+        cs.append({"ops": [ecall(2, False), ecall(6, False), ecall(2, False, True)], "family": "selector-mix"})
+        ang = [r.uniform(-180, 180) for _ in range(3)]
+        cs.append({"ops": [rcall(ang), rcall([ang[0], -ang[1], ang[2]]), rcall([ang[2], ang[1], ang[0]])], "family": "rotate-angles"})
+        return cs
+
+    def impl(self, c):
+        def f():
+            seq = fresh_process(c["ops"])
+            alone = [fresh_process([o])[0] for o in c["ops"]]
+            return {"seq": seq, "alone": alone}
+        return core.guarded(f)
+
+    def term(self, c, out):
+        if out[0] != "ok":
+            return "3%Z"
+        return "verdict true (forms_ok lonlat_ok [%s] [%s])" % ("; ".join(oqpair(t) for t in out[1]["seq"]),
+                                                                 "; ".join(oqpair(t) for t in out[1]["alone"]))
+
+    def classify(self, c, out, v):
+        return "C09.history:%s" % c.get("family")
 
 
 class SdssReject(Entry):
@@ -423,9 +739,16 @@ def evaluate(it):
     if k in ("euler", "rotate"):
         fwd, bwd = conv_of(it)
         p = tuple(it["pt"])
-        o = call_conv(fwd, [p], it.get("scalar", True))[0]
-        need_finite("out", o)
-        rt = call_conv(bwd, [o], it.get("scalar", True))[0]
+        if it.get("pre"):
+            # the calls of "pre" (e.g. the other epoch) come first, everything in one newly started process
+            res = fresh_process(list(it["pre"]) + [{"conv": fwd, "pt": list(p)}, {"conv": bwd, "pt": "prev"}])
+            o = tuple(float("nan") if x is None else x for x in res[-2])
+            rt = tuple(float("nan") if x is None else x for x in res[-1])
+            need_finite("out", o)
+        else:
+            o = call_conv(dict(fwd, form=it.get("form")), [p], it.get("scalar", True) and not it.get("form"))[0]
+            need_finite("out", o)
+            rt = call_conv(bwd, [o], it.get("scalar", True))[0]
         need_finite("roundtrip", rt)
         lem.append(("tie", "tie", "tie %s (euler_dir %s %s %s)" % (ud(o), rowt(fwd), cR(p[0]), cR(p[1]))))
         lem.append(("inverse", "ok", "within_sky tol5 %s %s" % (ud(rt), ud(p))))
@@ -538,6 +861,10 @@ def cert_items(ctx):
                 p = r.choice(pts)[0]
                 q, fam = pair_near(r, p)
                 items.append({"kind": "euler_pair", "sel": sel, "b1950": b, "pt": list(p), "pt2": list(q), "family": "euler:" + fam})
+        if not b:
+            for sel in ([r.choice([1, 2]), r.choice([3, 4, 5, 6])] if ctx.quick() else range(1, 7)):
+                items.append({"kind": "euler", "sel": sel, "b1950": False, "pt": list(sphere_pt(r)), "family": "euler:after-B1950-call",
+                              "pre": [{"conv": {"fn": r.choice(["euler", WRAPPER[sel]]), "sel": sel, "b1950": True}, "pt": list(sphere_pt(r))}]})
         for d in ("ec2gal", "gal2ec"):
             for _ in range(ctx.n(1, 2 * scale)):
                 sel = 5 if d == "ec2gal" else 6
@@ -572,6 +899,17 @@ def cert_items(ctx):
                 if units == "rad":
                     p, q = (math.radians(p[0]), math.radians(p[1])), (math.radians(q[0]), math.radians(q[1]))
                 items.append({"kind": "xyz_pair", "units": units, "stomp": stomp, "pt": list(p), "pt2": list(q), "family": "xyz:" + fam})
+    # dtypes whose ufuncs numpy evaluates in single/half precision: the outputs must still meet the tolerances
+    for _ in range(ctx.n(4, 16)):
+        form = r.choice(["u1", "i2", "u2", "f4"])
+        p = pts_for_form(r, form, 1, -90.0, 90.0, 0.0, 360.0)[0]
+        if r.random() < 0.5:
+            ang = [float(r.randrange(-360, 361)) for _ in range(3)]
+            items.append({"kind": "rotate", "phi": ang[0], "theta": ang[1], "psi": ang[2], "pt": list(p), "form": form, "family": "dtype:" + form})
+        else:
+            sel = r.randrange(1, 7)
+            items.append({"kind": "euler", "sel": sel, "b1950": r.random() < 0.5, "pt": list(p), "form": form, "family": "dtype:" + form,
+                          "via": r.choice(["euler", WRAPPER[sel]])})
     # rotate: random and special Euler angles
     co = _coords()
     for _ in range(ctx.n(3, 4 * scale)):
@@ -739,7 +1077,7 @@ def run(ctx, replay=None):
         ok, log = core.coq_make(["theories/C09/Exec.vo"])
         if not ok:
             return
-    entries = [Shift(), Forms(), SdssReject()]
+    entries = [Shift(), Forms(), History(), SdssReject()]
     if replay is not None and replay.get("entry") == "cert":
         certify(ctx, [dict(replay["case"])], "replay")
         return
